@@ -35,7 +35,7 @@ def rnd_coord(rng):
 def rnd_item(rng, base=None):
     cls = rng.choice(['ship', 'drone', 'fighter'])
     k = rng.random()
-    where = 'self' if k < 0.75 else rng.choice(['other', 'nosys', 'nofit', 'removed', 'cleared', 'moved'])
+    where = 'self' if k < 0.75 else rng.choice(['other', 'nosys', 'nofit', 'removed', 'cleared', 'moved', 'taken_out'])
     if base is not None and rng.random() < 0.2:
         coord = list(base)
     else:
@@ -119,7 +119,7 @@ def build_world(case):
             obj.orientation = Orientation(*orient)
         if it['where'] != 'nofit':
             fit = Fit(solar_system={'self': solsys, 'other': other, 'nosys': None, 'removed': solsys,
-                                    'cleared': solsys, 'moved': solsys}[it['where']])
+                                    'cleared': solsys, 'moved': solsys, 'taken_out': solsys}[it['where']])
             if it['cls'] == 'ship':
                 fit.ship = obj
             elif it['cls'] == 'drone':
@@ -146,6 +146,14 @@ def build_world(case):
                     fit.fighters.add(taken)
             except ValueError:
                 pass
+            # ... and so is adding the very item a second time to the container it is in
+            try:
+                if it['cls'] == 'drone':
+                    fit.drones.add(obj)
+                elif it['cls'] == 'fighter':
+                    fit.fighters.add(obj)
+            except ValueError:
+                pass
     # fits that were in the queried solar system and left it again
     for k, it in enumerate(case['items']):
         fit = items[k]._fit
@@ -154,6 +162,16 @@ def build_world(case):
         elif it['where'] == 'moved':
             solsys.fits.remove(fit)
             other.fits.add(fit)
+    # items taken out of their fit again (the container emptied / the slot cleared)
+    for k, it in enumerate(case['items']):
+        if it['where'] == 'taken_out':
+            fit = items[k]._fit
+            if it['cls'] == 'ship':
+                fit.ship = None
+            elif it['cls'] == 'drone':
+                fit.drones.clear()
+            else:
+                fit.fighters.clear()
     if any(it['where'] == 'cleared' for it in case['items']):
         keep = [items[k]._fit for k, it in enumerate(case['items']) if it['where'] == 'self']
         solsys.fits.clear()
@@ -191,7 +209,8 @@ def run_impl(case):
 # ---------------------------------------------------------------------------
 
 def item_tokens(it):
-    w = {'self': '1', 'other': '2', 'nosys': '-', 'nofit': '-', 'removed': '-', 'cleared': '-', 'moved': '2'}[it['where']]
+    w = {'self': '1', 'other': '2', 'nosys': '-', 'nofit': '-', 'removed': '-', 'cleared': '-', 'moved': '2',
+         'taken_out': '-'}[it['where']]
     r = it['radius'] if (it['radius'] is not None and it['loaded']) else 0
     return [qstr(c) for c in it['coord']] + [w, qstr(r)]
 
